@@ -1,7 +1,7 @@
 \* exhaustive, thorough tier: deadline rewritten while pods are enqueued, with a failing call and a restart
 CONSTANTS Pods = {"p1", "p2"}  Archetypes <- ArchDl  TGPs <- BoolT  TGP = 3
   MaxNow = 4  MaxFaults = 1  MaxRestarts = 1  MaxDlChanges = 1  MaxLen = 1000  MaxSpont = 99
-  EarlierMode = "earlier"  GateTiers = TRUE  MinGrace = 1  DndMode = "honour"  ThresholdSlack = 0  DropMode = "keep"
+  EarlierMode = "earlier"  GateTiers = TRUE  MinGrace = 1  DndMode = "honour"  ThresholdSlack = 0  DropMode = "keep"  SplitMode = "waiting"
 SPECIFICATION Spec
 VIEW view
 INVARIANTS TypeOK Inv_C10_Guards
